@@ -497,10 +497,12 @@ class HeaderPacketReceiver(Elaboratable):
                         #  when we're next enabled.
                         acks_to_send          .eq(1),
 
-                        # -Decreasing our next sequence number; so we maintain a continuity of sequence numbers
-                        #  without counting the advertising one. This doesn't seem to be be strictly necessary
-                        #  per the spec; but seem to make analyzers happier, so we'll go with it.
-                        next_header_to_ack    .eq(next_header_to_ack - 1),
+                        # -Moving our next sequence number back to the last one we've received; so we maintain a
+                        #  continuity of sequence numbers without counting the advertising one. (We can't just
+                        #  decrease it: we may still owe LGOODs, which are now replaced by the advertisement.)
+                        #  This doesn't seem to be be strictly necessary per the spec; but seem to make analyzers
+                        #  happier, so we'll go with it.
+                        next_header_to_ack    .eq(expected_sequence_number - 1),
 
                         # - Clearing all of our buffers.
                         read_pointer          .eq(0),
